@@ -49,6 +49,26 @@ def biased_schedules(rnd, n):
     return out
 
 
+def presend_schedules(rnd, n):
+    """A request is already waiting on a connection when the server gets to accept it: the client's half of the pipe exists first
+    (offer with hold), the client connects and writes its request, then the server's half is admitted - in the same tick as the
+    signal, or a tick before it.  The connection was accepted before the signal, so its request is served."""
+    out = []
+    for i in range(n):
+        items = rnd.choice([0, 0, 2])
+        calls = [{'k': 1, 'c': 1, 'items': items}]
+        steps = [{'op': 'offer', 'c': 1, 'k': 0, 'hold': True, 'nb': True}, {'op': 'send', 'c': 0, 'k': 1}]
+        if i % 3 == 2:      # a second, ordinary connection with a call in flight
+            calls.append({'k': 2, 'c': 2, 'items': 1})
+            steps += [{'op': 'offer', 'c': 2, 'k': 0}, {'op': 'send', 'c': 0, 'k': 2}]
+        steps += [{'op': 'admit', 'c': 1, 'k': 0, 'nb': i % 2 == 0}, {'op': 'fire', 'c': 0, 'k': 0}]
+        for c in calls:
+            steps += [{'op': 'release', 'c': 0, 'k': c['k']}] * (c['items'] + 1)
+        rq, wq, pend = rnd.choice([(65536, 65536, 0), (7, 2, 3), (64, 9, 2)])
+        out.append({'class': 'request_waiting_at_accept', 'calls': calls, 'steps': steps, 'shim': {'rq': rq, 'wq': wq, 'pend': pend}})
+    return out
+
+
 def timeout_schedules(rnd, n):
     """Server::timeout x graceful shutdown x streaming calls: the request timeout (300 ms) bounds the handler future only, so a
     response stream that is still being produced long after the signal (wait steps of 1 s) must run to completion."""
@@ -142,6 +162,7 @@ def check(prop, tier, seed):
         raise ToolError('too few schedules exported')
     stims += biased_schedules(rnd, 2000 if tier == 'thorough' else 300)
     stims += timeout_schedules(rnd, 600 if tier == 'thorough' else 100)
+    stims += presend_schedules(rnd, 120 if tier == 'thorough' else 24)
     for i, st in enumerate(stims):      # a third of the servers get a tower layer after their builder options (Server::layer must keep them)
         st['layer'] = i % 3 == 1
     ev, path = simple.run_lab('shutdown', stims, tag, 'schedules')
